@@ -1,6 +1,7 @@
 package p2p
 
 import (
+	"bytes"
 	"crypto/cipher"
 	"encoding/binary"
 	"io"
@@ -92,6 +93,11 @@ func NewHandshake(conn net.Conn, meta *lib.PeerMeta, privateKey crypto.PrivateKe
 	peerPublicKey, err := crypto.NewPublicKeyFromBytes(peerSig.PublicKey)
 	if err != nil {
 		return nil, ErrInvalidPublicKey(err)
+	}
+	// the challenge is the same for both ends, so our own signature handed back to us would verify: a peer presenting
+	// our own identity did not prove possession of anything (reflection)
+	if bytes.Equal(peerSig.PublicKey, privateKey.PublicKey().Bytes()) {
+		return nil, ErrFailedChallenge()
 	}
 	// verify the peer signature to confirm the identity
 	if !peerPublicKey.VerifyBytes(challenge[:], peerSig.Signature) {
